@@ -30,6 +30,9 @@ class VectorModel:
         self.units = list(units)
         self.cells = {idx: None for idx in itertools.product(*[range(n) for n in self.shape])}
         self.metadata = {} if metadata is None else copy.deepcopy(metadata)
+        # bookkeeping for the harness only: some cell was given as a non-float64 array (values are still
+        # compared BY VALUE; the harness keeps dtype-sensitive in-place arithmetic away from such vectors)
+        self.mixed = False
 
     # ---- basic ----------------------------------------------------------------------------------
     @property
@@ -47,6 +50,7 @@ class VectorModel:
     def copy(self):
         m = VectorModel(self.shape, self.fields, self.units, self.metadata)
         m.cells = copy.deepcopy(self.cells)
+        m.mixed = self.mixed
         return m
 
     # ---- cells ----------------------------------------------------------------------------------
@@ -86,6 +90,7 @@ class VectorModel:
         for oidx in out.order():
             src = tuple(s[i] for s, i in zip(sets, oidx))
             out.cells[oidx] = self.get_cell(src)
+        out.mixed = self.mixed
         return out
 
     # ---- fields ---------------------------------------------------------------------------------
